@@ -313,7 +313,7 @@ def run(ctx, idx):
                 w = RL.not_included(dfas[r.name], ref)
                 if w is not None:
                     probs.append("%s(%r) raises ValueError: the token pattern accepts text the builtin rejects" % (n.func.id, w))
-                if n.func.id == "int" and RL.accepts(dfas[r.name], "1" * (RL.INT_MAX_STR_DIGITS + 1)) and not value_error_guarded(fn, n):
+                if n.func.id == "int" and RL.accepts(dfas[r.name], "1" * (RL.INT_MAX_STR_DIGITS + 1)) and not value_error_guarded(fn, n) and K.int_length_guard(fn) is None:
                     probs.append("int() refuses more than %d digits with ValueError (Python >= 3.11) and the %s pattern bounds no length: a long enough digit string escapes the lexer as ValueError instead of a syntax error" % (RL.INT_MAX_STR_DIGITS, r.token))
             if isinstance(n, ast.Call) and isinstance(n.func, ast.Attribute) and n.func.attr == "decode":
                 guarded = False
